@@ -211,7 +211,8 @@ def run_sequence(ds, items, ops, sig="C08"):
         require(bool(match), f"{sig}:{f}:wrong-selection",
                 f"params={op['params']}: kept {len(got)} of {len(items)} mazes (lengths {[len(it['sol']) for it in items]}), model keeps {[len(o) for o in outs]}; kept-index-mismatch")
         new_items = match[0]
-        in_place = f == "collect_generation_meta"
+        # documented exception: metadata collection works in place unless inplace=False (and is a no-op returning its input when already collected)
+        in_place = f == "collect_generation_meta" and (op["params"].get("inplace", True) or collected)
         if not in_place:
             require(res is not ds, f"{sig}:{f}:returned-input", "the filter returned its input object")
             after = _snapshot(ds)
@@ -231,6 +232,8 @@ def run_sequence(ds, items, ops, sig="C08"):
             if want_meta is not None:
                 require(_norm(res.generation_metadata_collected) == want_meta, f"{sig}:{f}:counts",
                         f"collected {str(_norm(res.generation_metadata_collected))[:300]} expected {str(want_meta)[:300]}")
+            if op["params"].get("clear_in_mazes", True) is False and not collected:
+                require(all(m.generation_meta is not None for m in res.mazes), f"{sig}:{f}:cleared-although-not-asked", "per-maze metadata was cleared with clear_in_mazes=False")
         if f == "strip_generation_meta":
             require(all(m.generation_meta is None for m in res.mazes), f"{sig}:{f}:not-stripped", "")
         if 0 < len(new_items) < len(items):
@@ -341,6 +344,8 @@ def _op(draw, n, max_len):
             op["params"] = {"minimum_difference_connection_list": draw(thr), "minimum_difference_solution": None}
         elif mode == "sol-only":
             op["params"] = {"minimum_difference_connection_list": None, "minimum_difference_solution": draw(thr)}
+    elif f == "collect_generation_meta":
+        op["params"] = draw(st.sampled_from([{}, {}, {"inplace": False}, {"clear_in_mazes": False}, {"inplace": False, "clear_in_mazes": False}, {"inplace": True, "clear_in_mazes": True}]))
     elif f == "custom":
         op["name"] = draw(st.sampled_from(sorted(CUSTOM)))
         if op["name"] == "pred_start_row_at_most":
